@@ -464,7 +464,9 @@ use std::os::unix::process::ExitStatusExt;
 use std::os::windows::process::ExitStatusExt;
 #[cfg(unix)]
 fn exit_status(code: i32) -> process::ExitStatus {
-    process::ExitStatus::from_raw(code)
+    // `from_raw` takes a wait(2) status, not an exit code: the exit code lives in bits 8..16.
+    // Passing the code itself turned a remote "exit 1" into "killed by signal 1".
+    process::ExitStatus::from_raw((code & 0xff) << 8)
 }
 #[cfg(windows)]
 fn exit_status(code: i32) -> process::ExitStatus {
